@@ -1,9 +1,9 @@
-\* the tree as pinned: FixedSkipOverrun = FALSE (flip to TRUE once Btdmp::Skip is repaired in /repo)
+\* the repaired Btdmp::Skip (FixedSkipOverrun = TRUE): Skip(k) = Tick^k is claimed on every observed state
 CONSTANTS
   Cap = 16
   TW = 65536
   ResetPeriod = 4096
-  FixedSkipOverrun = FALSE
+  FixedSkipOverrun = TRUE
   Vals = {0}
   Periods = {1}
   Clocks = {0}
